@@ -34,7 +34,7 @@ GUARDS = [  # variant, what, the laws switched off for the run, the law that mus
     ("inplace", "a shortcut extends the receiver's own pipelines", ["OrderLaw", "PrefixLaw"], {"ReceiverUnchanged"}),
     ("fin_always", "iteration appends Finalize without looking", ["ObserveLaw"], {"FinalizeOnce"}),
     ("slice_fin", "a slice returns finalized pipelines", ["NoStrayFin"], {"SliceLaws"}),
-    ("iter_mutates", "iteration stores the finalized pipelines in the receiver", [], {"ReceiverUnchanged"})]
+    ("iter_mutates", "iteration stores the finalized pipelines in the receiver", ["NoStrayFin", "ObserveLaw"], {"ReceiverUnchanged"})]
 _COVX = re.compile(r"^<(\w+) line \d+, col \d+ to line \d+, col \d+ of module \w+(?: \([\d ]+\))?>: (\d+):(\d+)")
 
 
@@ -531,7 +531,7 @@ def runs_of(ctx):
         add("forms-1src", "S1", "AllForms", 1, 12)
         add("forms-3src", "S3", "AllForms", 1, 12)
         add("forms-empty", "S0", "AllForms", 1, 12)
-        add("forms-sim", "S2", "AllForms", 3, 12, sim=dict(num=40), depth=4)
+        add("forms-sim", "S2", "AllForms", 3, 12, sim=dict(num=12), depth=4)
     else:
         add("forms-then-canon", "S2", "AllForms", 2, 12, later="Canon")
         add("canon-then-forms", "S2", "Canon", 2, 12, later="AllForms")
